@@ -24,10 +24,19 @@ func init() {
 			"(4) both validators rebuild the mapping and apply zero-check + decrement + nomination check per candidate, and ConsolidationValidator.isValid validates candidates before and after the command; " +
 			"(5) Controller.disrupt calls ComputeCommands only with a mapping built without error for the method's own reason; " +
 			"(6) the budget re-check binds the command that is handed on: every implementer of disruption.Validator returns, on success, a command whose Candidates are the result of its own validateCandidates (tested for error) — or the command it was given when that re-validation is all-or-nothing (success only with len(result) == len(input)); " +
-			"and every method that owns a Validator returns from ComputeCommands the command Validate returned — or the one it handed to Validate when the validator its constructor wires returns its input (VALID1/VALID2, shared with C07).",
+			"and every method that owns a Validator returns from ComputeCommands the command Validate returned — or the one it handed to Validate when the validator its constructor wires returns its input (VALID1/VALID2, shared with C07); " +
+			"(7) the node census of BuildDisruptionBudgetMapping runs to exhaustion before any allowance is computed or the mapping is returned as good (LOOP1/LOOP1b: no early exit leaves NotReady / marked nodes uncounted); " +
+			"(8) mapCandidates returns lo.Filter(_, pred) with pred true only for candidates whose name is in the set of the PROPOSED candidates' names (PROV3) — so what the validators budget-check are the command's own nodes; " +
+			"(9) Controller.Reconcile calls disrupt only after cluster.Synced() and is its only caller (DOM9, WMC2); a managed StateNode is Initialized() only with a Node labelled karpenter.sh/initialized=true (MPT4); " +
+			"(10) every write of Command.Candidates in the disruption package is classified: a single budget-checked candidate (Drift, StaticDrift), the budget-filtered accumulation (Emptiness), the candidates computeConsolidation was given — multi-node passes sub-slices of its budget-filtered input — or a narrowing by validateCandidates / markDisrupted (PROV4/PROV4b); " +
+			"(11) commands in flight keep consuming the budget: StartCommand returns nil only after MarkForDeletion of lo.Map(cmd.Candidates, ProviderID) (MPT2), MarkForDeletion marks every known id of the batch (LOOP2, POST3), UnmarkForDeletion is called only by CompleteCommand and only when !Succeeded (WMC3, DOM10), Queue.Reconcile completes a command only after an unrecoverable failure or after recording Succeeded (DOM11), markedForDeletion=false is stored only by UnmarkForDeletion (WMC4), and StateNode.MarkedForDeletion() answers false only without mark and without deletion timestamp (MPT3/MPT3b).",
 		NotCovered: []string{"cron arithmetic inside robfig/cron", "accumulation across rounds beyond 'marked nodes are subtracted'", "numeric values of percent rounding",
 			"validators injected through WithValidator by callers other than the method constructors (only the constructors' own wiring is resolved)",
-			"what Controller.disrupt does to a command between ComputeCommands and Queue.StartCommand"},
+			"that the commands disrupt hands to Queue.StartCommand are the ones ComputeCommands returned (only writes of Command.Candidates are classified, PROV4)",
+			"that firstNConsolidationOption returns a command computeConsolidation produced (only its inputs are pinned, PROV4b)",
+			"propagation of a budget's evaluation error out of GetAllowedDisruptionsByReason: the failing budget contributes 0 to the reasons it applies to (DOM1 + PROV1); that it also blocks the other reasons (MustGetAllowedDisruptions) is stricter than the statement",
+			"commands that fail for good after some of their NodeClaims were already deleted are unmarked as a whole (upstream behaviour)",
+			"staleness of the cluster state beyond Synced() (an informer that lags behind a deletion)"},
 		Rules:      c05Rules,
 	})
 }
@@ -40,7 +49,189 @@ func c05Rules(tier string) []Rule {
 		}})
 	// the budget re-check of the validators only binds if the command that leaves the validation step is the one the
 	// validator returned (trimmed to what the rebuilt budget still allows): shared_A.go
-	return append(rules, validatedCommandRules("C05")...)
+	rules = append(rules, validatedCommandRules("C05")...)
+	// sweep triage: census completeness, candidate re-mapping, synced state, marks of commands in flight
+	rules = append(rules, c05TriageRules()...)
+	return append(rules, disruptionMarkRules("C05")...)
+}
+
+// c05TriageRules: facts the statement relies on that the mutation sweep found undecided.
+func c05TriageRules() []Rule {
+	const (
+		build = "disr.BuildDisruptionBudgetMapping"
+		ctrl  = "(*disr.Controller).Reconcile"
+		disr  = "(*disr.Controller).disrupt"
+	)
+	// the edge on which the range over the cluster's nodes is exhausted (range or index loop)
+	census := G(`-^.*phi\(.*\).* < len\(\(\*state\.Cluster\)\.DeepCopyNodes\(\$1\)\)$`)
+	return []Rule{
+		// "plus the pool's nodes that are already not ready or being deleted": the subtraction is only right if the census
+		// has looked at EVERY node of the cluster state — the allowance is computed, and the mapping returned, only after the
+		// loop over the nodes ran to exhaustion (an early exit leaves later NotReady / marked nodes uncounted)
+		DOM{ID: "C05.LOOP1", Fn: build, Sink: `^call \(\*apis/v1\.NodePool\)\.MustGetAllowedDisruptions\(`, Gates: gates(census),
+			Note: "allowances are computed from the complete node census"},
+		MPT{ID: "C05.LOOP1b", Fn: build, Ret: core.RetNilConst, Gates: gates(census), Note: "the mapping is returned as good only after the complete node census"},
+		// the validators budget-check mapCandidates(proposed, current) and — all-or-nothing validators — then accept the
+		// command they were given: what mapCandidates returns must be candidates named like the proposed ones
+		core.Custom{ID: "C05.PROV3", Kind: "PROV", Run: c05MapCandidates},
+		// budgets are computed from the cluster state; a state that does not yet hold every node misses NotReady / deleting
+		// nodes: methods only run once the state is synced, and only Reconcile runs them
+		DOM{ID: "C05.DOM9", Fn: ctrl, Sink: `^call \(\*disr\.Controller\)\.disrupt\(`, Gates: gates(
+			G(`+^\(\*state\.Cluster\)\.Synced\(\$0\.cluster\)$`),
+		), Note: "disruption methods run on a synced cluster state only"},
+		WMC{ID: "C05.WMC2", Sink: `^(call|go|defer) \(\*disr\.Controller\)\.disrupt\(`, Allowed: []string{ctrl}, Required: []string{ctrl}},
+		// "percentages are taken of the pool's initialized nodes": what TT1's `Initialized` gate means for a managed node
+		MPT{ID: "C05.MPT4", Fn: "(*state.StateNode).Initialized", Ret: core.RetTrue, Gates: gates(
+			G(`-^\(\*state\.StateNode\)\.Managed\(\$0\)$`, `-^\$0\.Node == nil$`),
+			G(`-^\(\*state\.StateNode\)\.Managed\(\$0\)$`, `+^\$0\.Node\.ObjectMeta\.Labels\["karpenter\.sh/initialized"\] == "true"$`),
+		), Note: "a managed node counts as initialized only with a Node carrying the initialized label"},
+		// the per-method rows decide which candidates pass the budget; they bind the command only if a command's candidate
+		// list is nowhere built from anything else (multi-node: computeConsolidation puts exactly the candidates it was given
+		// — a prefix of the budget-filtered slice — into the command) and is later only narrowed
+		core.Custom{ID: "C05.PROV4", Kind: "PROV", Run: c05CommandCandidates},
+		core.Custom{ID: "C05.PROV4b", Kind: "PROV", Run: func(w *core.World, id string) []core.Result {
+			return core.ArgProvenance(w, id, "(*disr.MultiNodeConsolidation).firstNConsolidationOption", `^call \(\*disr\.(MultiNodeConsolidation|consolidation)\)\.computeConsolidation\(`, 2, `^\$2(\[[^\]]*\])?$`,
+				"the binary search evaluates sub-slices of the (budget-filtered) candidates it was given")
+		}},
+	}
+}
+
+// C05.PROV4: every write of Command.Candidates in the disruption package is one of the classified ones — the value written
+// is what the function's budget rows (or its caller's) speak about.
+func c05CommandCandidates(w *core.World, id string) []core.Result {
+	single := `^&local<\[1\]\*disr\.Candidate>\[:\]$`
+	given := `^\$2(\[[^\]]*\])?$`
+	classes := []struct{ fn, val, why string }{
+		{"(*disr.Drift).ComputeCommands", single, "one budget-checked candidate (C05.DOM6)"},
+		{"(*disr.StaticDrift).ComputeCommands", single, "one candidate of the budget-bounded prefix (C05.DOM7, C03.PROV6)"},
+		{"(*disr.Emptiness).ComputeCommands", `^phi\(makeslice<\[\]\*disr\.Candidate>\|`, "the budget-filtered accumulation (C05.DOM3, DOM3b)"},
+		{"(*disr.consolidation).computeConsolidation", given, "the candidates the evaluation was asked about"},
+		{"(*disr.consolidation).computeSpotToSpotConsolidation", given, "the candidates the evaluation was asked about"},
+		{"(*disr.EmptinessValidator).Validate", `^\(\*disr\.EmptinessValidator\)\.validateCandidates\(\$0, \$2\.Candidates\)#0$`, "narrowed to the re-validated candidates (C05.MPT1f)"},
+		{"(*disr.Queue).StartCommand", `^\(\*disr\.Queue\)\.markDisrupted\(\$0, \$2\)#0$`, "narrowed to the candidates that could be tainted"},
+	}
+	re := regexp.MustCompile(`^store .*\.Candidates = `)
+	isCmdField := func(in ssa.Instruction) (*ssa.Store, bool) {
+		st, ok := in.(*ssa.Store)
+		if !ok {
+			return nil, false
+		}
+		fa, ok := st.Addr.(*ssa.FieldAddr)
+		if !ok || core.TypeStr(fa.X.Type()) != "*disr.Command" {
+			return nil, false
+		}
+		return st, true
+	}
+	seen := map[ssa.Instruction]bool{}
+	var out []core.Result
+	n := 0
+	for _, c := range classes {
+		fn := w.Fn(c.fn)
+		if fn == nil {
+			out = append(out, core.Anchor(id, "PROV", c.fn))
+			continue
+		}
+		vre := regexp.MustCompile(c.val)
+		k := 0
+		w.WithHelpers(fn, func(f *ssa.Function, via ssa.Instruction) {
+			for _, s := range w.Sites(f, re, true) {
+				st, ok := isCmdField(s)
+				if !ok {
+					continue
+				}
+				k++
+				if seen[s] {
+					continue // already judged as a helper of an earlier class, in that caller's terms
+				}
+				seen[s] = true
+				n++
+				if r := w.RenderD(st.Val, 6); !vre.MatchString(r) {
+					out = append(out, core.Bad(id, "PROV", "PROV:"+c.fn+":Command.Candidates", w.InstrPos(s), "the command's candidates are `"+clipStr(r, 120)+"` here, expected "+c.why+" — the budget rows of this method no longer speak about the nodes the command disrupts"))
+				}
+			}
+		})
+		if k == 0 {
+			out = append(out, core.Bad(id, "PROV", "PROV:"+c.fn+":Command.Candidates", w.Pos(fn.Pos()), "vacuous: "+c.fn+" no longer writes Command.Candidates (the command is built elsewhere: idiom not recognised)"))
+		}
+	}
+	for _, fn := range w.Fns {
+		if core.IsTestSupport(fn) || !strings.Contains(core.FnName(fn), "disr.") {
+			continue
+		}
+		for _, s := range w.Sites(fn, re, false) {
+			if _, ok := isCmdField(s); !ok || seen[s] {
+				continue
+			}
+			out = append(out, core.Bad(id, "PROV", "PROV:"+core.FnName(fn)+":Command.Candidates", w.InstrPos(s), "unclassified write of a command's candidate list: `"+clipStr(w.RenderInstr(s), 140)+"` — no budget row speaks about these candidates"))
+		}
+	}
+	if n < 9 && len(out) == 0 {
+		out = append(out, core.Bad(id, "PROV", "PROV:disr:Command.Candidates", "", fmt.Sprintf("vacuous: %d writes of Command.Candidates found, 9 confirmed by hand", n)))
+	}
+	if len(out) == 0 {
+		out = append(out, core.OK(id, "PROV", "PROV:disr:Command.Candidates", n, "every command's candidate list is built from budget-checked candidates and only narrowed afterwards"))
+	}
+	return out
+}
+
+// C05.PROV3: mapCandidates(proposed, current) returns lo.Filter(_, pred) where pred(c) holds only if c's name is in the set of
+// the proposed candidates' names.
+func c05MapCandidates(w *core.World, id string) []core.Result {
+	const mc = "disr.mapCandidates"
+	fn := w.Fn(mc)
+	if fn == nil {
+		return []core.Result{core.Anchor(id, "PROV", mc)}
+	}
+	construct := "PROV:" + mc
+	var out []core.Result
+	n := 0
+	for _, s := range w.ReturnSinks(fn, core.RetAny) {
+		if len(s.Ret.Results) != 1 {
+			continue
+		}
+		n++
+		v := s.Ret.Results[0]
+		call, ok := v.(*ssa.Call)
+		if !ok || !strings.HasPrefix(w.CalleeName(call.Common()), "lo.Filter[*disr.Candidate,") || len(call.Call.Args) != 2 {
+			out = append(out, core.Bad(id, "PROV", construct, w.InstrPos(s.Ret), "mapCandidates returns `"+clipStr(w.Render(v), 120)+"`, not lo.Filter(candidates, name ∈ proposed) (idiom not recognised)"))
+			continue
+		}
+		pred := fnValueOf(call.Call.Args[1])
+		if pred == nil {
+			out = append(out, core.Bad(id, "PROV", construct, w.InstrPos(s.Ret), "the predicate of mapCandidates' filter cannot be resolved"))
+			continue
+		}
+		pn := core.FnName(pred)
+		has := `\(apim/util/sets\.String\)\.Has\(`
+		m := MPT{ID: id, Fn: pn, Ret: core.RetTrue, Gates: gates(
+			G(`+^` + has + `\^apim/util/sets\.NewString\(lo\.Map\[\*disr\.Candidate, string\]\(.*\)\), \(\*state\.StateNode\)\.Name\(\$0\.StateNode\)\)$`),
+		), Note: "a candidate is kept only if its name was proposed"}
+		for _, r := range m.Check(w) {
+			if r.Status != core.Discharged {
+				out = append(out, r)
+			}
+		}
+		// … and the set asked is the set of the PROPOSED candidates' names
+		for _, r := range core.ArgProvenance(w, id, pn, `^call `+has, 0, `^\^apim/util/sets\.NewString\(lo\.Map\[\*disr\.Candidate, string\]\(\$0, [^,]*\)\)$`,
+			"the name set asked by mapCandidates' predicate is built from the proposed candidates") {
+			if r.Status != core.Discharged {
+				out = append(out, r)
+			}
+		}
+	}
+	if n == 0 {
+		out = append(out, core.Bad(id, "PROV", construct, w.Pos(fn.Pos()), "vacuous: mapCandidates has no return"))
+	}
+	for _, r := range mappedCandidates(w, id, "PROV", mc, `^call apim/util/sets\.NewString\(`, 0, `^\$0$`, `^return \(\*state\.StateNode\)\.Name\(\$0\.StateNode\)$`,
+		"the proposed candidates are identified by their names", 1) {
+		if r.Status != core.Discharged {
+			out = append(out, r)
+		}
+	}
+	if len(out) == 0 {
+		out = append(out, core.OK(id, "PROV", construct, n, "mapCandidates = the candidates whose name is among the proposed candidates' names"))
+	}
+	return out
 }
 
 func c05RulesBase(tier string) []Rule {
